@@ -31,7 +31,7 @@ struct verif_in {
 	int chunk[8], io_fail_at, advise_rw_ret;
 	/* state_check region */
 	int fix, auditonly, level, skip_access[LEV_MAX], excluded[LEV_MAX], popen_ret[LEV_MAX], pcreate_ret[LEV_MAX], chsize_ret, process_ret;
-	block_off_t blockstart, blockmax;
+	block_off_t blockstart, blockmax, blockcount;
 };
 VERIF_DECLARE_IN
 
@@ -222,23 +222,26 @@ void h_parity_create(void)
 
 /* ---------------------------------------------------------------- state_check (cmdline/check.c): how check and fix open the parity */
 static unsigned g_popen, g_pcreate, g_pchsize, g_ptruncate, g_pclose, g_process_calls;
+static data_off_t g_chsize_arg = -1;
+static block_off_t g_proc_a, g_proc_b;
+static block_off_t c_allocated(struct snapraid_state *state) { (void)state; return IN.blockmax; }
 static int g_process_fix = -1;
 static int c_parity_open(struct snapraid_parity_handle *h, const struct snapraid_parity *p, unsigned level, int mode, uint32_t bs, data_off_t lim)
 { (void)h; (void)p; (void)mode; (void)bs; (void)lim; ++g_popen; return IN.popen_ret[level < LEV_MAX ? level : 0] ? -1 : 0; }
 static int c_parity_create(struct snapraid_parity_handle *h, const struct snapraid_parity *p, unsigned level, int mode, uint32_t bs, data_off_t lim)
 { (void)h; (void)p; (void)mode; (void)bs; (void)lim; ++g_pcreate; return IN.pcreate_ret[level < LEV_MAX ? level : 0] ? -1 : 0; }
 static int c_parity_chsize(struct snapraid_parity_handle *h, struct snapraid_parity *p, int *is_modified, data_off_t size, uint32_t bs, int a, int b)
-{ (void)h; (void)p; (void)is_modified; (void)size; (void)bs; (void)a; (void)b; ++g_pchsize; return IN.chsize_ret ? -1 : 0; }
+{ (void)h; (void)p; (void)is_modified; (void)bs; (void)a; (void)b; ++g_pchsize; g_chsize_arg = size; return IN.chsize_ret ? -1 : 0; }
 static int c_parity_truncate(struct snapraid_parity_handle *h) { (void)h; ++g_ptruncate; return 0; }
 static int c_parity_close(struct snapraid_parity_handle *h) { (void)h; ++g_pclose; return 0; }
 static int c_check_process(struct snapraid_state *state, int fix, struct snapraid_parity_handle **parity, block_off_t a, block_off_t b)
-{ (void)state; (void)parity; (void)a; (void)b; ++g_process_calls; g_process_fix = fix; return IN.process_ret ? -1 : 0; }
+{ (void)state; (void)parity; ++g_process_calls; g_process_fix = fix; g_proc_a = a; g_proc_b = b; return IN.process_ret ? -1 : 0; }
 static const char *c_lev_name(unsigned l) { (void)l; return "parity"; }
 static void c_msg(const char *format, ...) { (void)format; }
 static int g_exit_ok;
 static void c_exit(int code)
 {
-	VERIF_ASSERT(g_exit_ok && code != 0, "state_check stops only when fix cannot open a parity for writing");
+	VERIF_ASSERT(g_exit_ok && code != 0, "state_check stops only when fix cannot open a parity for writing, or the start position is beyond the array");
 #ifdef VERIF_CBMC
 	__CPROVER_assume(0);
 #else
@@ -248,6 +251,8 @@ static void c_exit(int code)
 #ifdef VERIF_CBMC
 int exit_success = 0, exit_failure = 1, exit_sync_needed = 2;
 #endif
+#define parity_allocated_size c_allocated
+#define log_fatal(...) ((void)0)
 #define parity_open c_parity_open
 #define parity_create c_parity_create
 #define parity_chsize c_parity_chsize
@@ -258,6 +263,8 @@ int exit_success = 0, exit_failure = 1, exit_sync_needed = 2;
 #define msg_status c_msg
 #define exit c_exit
 #include "region_check_parity.c"
+#undef parity_allocated_size
+#undef log_fatal
 #undef parity_open
 #undef parity_create
 #undef parity_chsize
@@ -282,16 +289,23 @@ void h_check_parity(void)
 		ST.parity[l].skip_access = IN.skip_access[l] != 0;
 		ST.parity[l].is_excluded_by_filter = IN.excluded[l] != 0;
 	}
-	g_exit_ok = IN.fix != 0;
-	r = region_check_parity(&ST, IN.fix, IN.blockstart, IN.blockmax, 0);
+	VERIF_ASSUME(IN.blockmax <= 0x00ffffff && (uint64_t)IN.blockstart + IN.blockcount <= 0xffffffffull);
+	g_exit_ok = IN.fix != 0 || IN.blockstart > IN.blockmax;
+	g_chsize_arg = -1;
+	r = region_check_parity(&ST, IN.fix, IN.blockstart, IN.blockcount);
 	(void)r;
 	if (!IN.fix) {
 		VERIF_ASSERT(g_pcreate == 0 && g_pchsize == 0 && g_ptruncate == 0, "check opens parity for reading only: it never creates, resizes or truncates a parity file");
 		if (IN.auditonly)
 			VERIF_ASSERT(g_popen == 0, "an audit-only check does not touch the parity at all");
 	}
-	if (g_process_calls)
+	if (g_process_calls) {
+		block_off_t end = (IN.blockcount != 0 && IN.blockstart + IN.blockcount < IN.blockmax) ? IN.blockstart + IN.blockcount : IN.blockmax;
 		VERIF_ASSERT(g_process_fix == IN.fix && g_process_calls == 1, "the fix flag reaches the processing loop unchanged");
+		VERIF_ASSERT(g_proc_a == IN.blockstart && g_proc_b == end, "the stripes processed are those of the requested range (-S / -B), inside the array");
+	}
+	if (g_pchsize)
+		VERIF_ASSERT(g_chsize_arg == (data_off_t)IN.blockmax * 256, "fix sizes a parity file for the WHOLE array, whatever range it was asked to process (a partial fix never shrinks the parity)");
 	VERIF_CANARY();
 }
 
